@@ -15,6 +15,7 @@ from typing import Dict, List, Optional, Any, AbstractSet, Union, Set, Sequence,
 import numbers
 import warnings
 
+import numpy
 import sympy
 
 from qupulse.serialization import Serializer, PulseRegistryType
@@ -62,7 +63,7 @@ class AtomicMultiChannelPulseTemplate(AtomicPulseTemplate, ParameterConstrainer)
         self._subtemplates = [st if isinstance(st, PulseTemplate) else MappingPulseTemplate.from_tuple(st) for st in
                               subtemplates]
 
-        if duration in (True, False):
+        if isinstance(duration, (bool, numpy.bool_)):
             warnings.warn("Boolean duration is deprecated since qupulse 0.6 and interpreted as None",
                           category=DeprecationWarning, stacklevel=2)
             duration = None
